@@ -48,3 +48,28 @@ func ctlFilterRefGood(ws []float64) bool {
 	}
 	return true
 }
+
+// ---- cacheparam: a cache in a map parameter keyed by part of the inputs
+
+func ctlLoad(base, rel int) []byte { return make([]byte, base+rel) }
+
+// must fire: the value depends on base, the key does not
+func ctlCacheParamBad(base, rel int, seen map[int][]byte) []byte {
+	v, ok := seen[rel]
+	if !ok {
+		v = ctlLoad(base, rel)
+		seen[rel] = v
+	}
+	return v
+}
+
+// must stay silent: the key is the absolute position
+func ctlCacheParamGood(base, rel int, seen map[int][]byte) []byte {
+	pos := base + rel
+	v, ok := seen[pos]
+	if !ok {
+		v = ctlLoad(pos, 0)
+		seen[pos] = v
+	}
+	return v
+}
